@@ -2,6 +2,7 @@
 package c19
 
 import (
+	"encoding/xml"
 	"bytes"
 	"encoding/json"
 	"fmt"
@@ -378,17 +379,22 @@ func alteredValues(ms schema.ModelSet, tree datanode.DataNode, lits map[string][
 					continue
 				}
 				for i, l := range ls {
-					if l[0] != 'N' {
+					if l[0] != 'N' && l[0] != 'S' {
 						continue
 					}
 					lit := l[1:]
 					if lit == vals[i] {
 						continue
 					}
-					if sameNumber(lit, vals[i]) {
+					if l[0] == 'N' && sameNumber(lit, vals[i]) {
 						continue // e.g. 1e2 for 100: the same number in another spelling
 					}
 					if err := csn.Type().Validate(nil, []string{}, lit); err != nil {
+						// the one legitimate rewriting: an identity written with its module name
+						// (RFC 7951 6.8) is returned in the form the identityref type accepts
+						if l[0] == 'S' && strings.HasSuffix(lit, ":"+vals[i]) && identityrefAccepts(csn.Type(), vals[i]) {
+							continue
+						}
 						bad = append(bad, fmt.Sprintf("%s: input literal %s is not a value of the type but the decoder returned %q", p, lit, vals[i]))
 					}
 				}
@@ -399,6 +405,58 @@ func alteredValues(ms schema.ModelSet, tree datanode.DataNode, lits map[string][
 	}
 	walk(ms, tree, "", 0)
 	return bad
+}
+
+// identityrefAccepts: some identityref type (the type itself or a member of the union, nested
+// unions included) accepts v.
+func identityrefAccepts(t schema.Type, v string) bool {
+	switch x := t.(type) {
+	case schema.Identityref:
+		return x.Validate(nil, []string{}, v) == nil
+	case schema.Union:
+		for _, m := range x.Typs() {
+			if identityrefAccepts(m, v) {
+				return true
+			}
+		}
+	}
+	return false
+}
+
+// xmlLiterals: path of local element names -> text of every element without child elements.
+func xmlLiterals(in []byte) map[string][]string {
+	dec := xml.NewDecoder(bytes.NewReader(in))
+	out := map[string][]string{}
+	var path []string
+	var text []string
+	var hasKids []bool
+	for {
+		tok, err := dec.Token()
+		if err != nil {
+			break
+		}
+		switch t := tok.(type) {
+		case xml.StartElement:
+			if len(hasKids) > 0 {
+				hasKids[len(hasKids)-1] = true
+			}
+			path, text, hasKids = append(path, t.Name.Local), append(text, ""), append(hasKids, false)
+		case xml.CharData:
+			if len(text) > 0 {
+				text[len(text)-1] += string(t)
+			}
+		case xml.EndElement:
+			if len(path) == 0 {
+				return nil
+			}
+			if !hasKids[len(hasKids)-1] && len(path) > 1 {
+				p := "/" + strings.Join(path[1:], "/")
+				out[p] = append(out[p], "S"+text[len(text)-1])
+			}
+			path, text, hasKids = path[:len(path)-1], text[:len(text)-1], hasKids[:len(hasKids)-1]
+		}
+	}
+	return out
 }
 
 func sameNumber(a, b string) bool {
@@ -443,11 +501,13 @@ func checkInput(ms schema.ModelSet, enc encoding.EncType, in []byte) (vs []engin
 	if len(bad) > 0 {
 		mk("decoded-tree-does-not-conform:"+encNames[enc], strings.Join(bad, "; "))
 	}
-	if enc != encoding.XML {
-		if lits := jsonLiterals(in); lits != nil {
-			if alt := alteredValues(ms, r.tree, lits); len(alt) > 0 {
-				mk("rejected-value-silently-altered:"+encNames[enc], strings.Join(alt, "; "))
-			}
+	lits := jsonLiterals(in)
+	if enc == encoding.XML {
+		lits = xmlLiterals(in)
+	}
+	if lits != nil {
+		if alt := alteredValues(ms, r.tree, lits); len(alt) > 0 {
+			mk("rejected-value-silently-altered:"+encNames[enc], strings.Join(alt, "; "))
 		}
 	}
 	return vs, true
@@ -464,6 +524,23 @@ func panicClass(p any) string {
 		}
 		return r
 	}, s)
+}
+
+// valueToken: the token is a JSON string or number, or XML character data; inner is its text.
+func valueToken(tok string, enc encoding.EncType) (inner string, ok bool) {
+	if tok == "" {
+		return "", false
+	}
+	if enc == encoding.XML {
+		return tok, tok[0] != '<' && strings.TrimSpace(tok) != ""
+	}
+	if tok[0] == '"' && len(tok) >= 2 && !strings.ContainsAny(tok[1:len(tok)-1], "\\\"") {
+		return tok[1 : len(tok)-1], true
+	}
+	if tok[0] == '-' || (tok[0] >= '0' && tok[0] <= '9') {
+		return tok, true
+	}
+	return "", false
 }
 
 func jsonTokens(b []byte) []string {
@@ -620,6 +697,18 @@ func run(c *engine.Ctx) {
 				for ai, a := range alpha {
 					rep := strings.Join(append(append(append([]string{}, toks[:i]...), a), toks[i+1:]...), "")
 					doIn(fmt.Sprintf("rep:%d:%s:%d:%d", ti, encNames[enc], i, ai), []byte(rep))
+				}
+				// a value written with a module name in front of it, as identities are: only an
+				// identityref may lose that prefix again
+				if inner, isValue := valueToken(toks[i], enc); isValue {
+					for mi, mod := range []string{"a", "b", "nosuch"} {
+						pv := mod + ":" + inner
+						if enc != encoding.XML {
+							pv = "\"" + pv + "\""
+						}
+						rep := strings.Join(append(append(append([]string{}, toks[:i]...), pv), toks[i+1:]...), "")
+						doIn(fmt.Sprintf("pfx:%d:%s:%d:%d", ti, encNames[enc], i, mi), []byte(rep))
+					}
 				}
 			}
 		}
